@@ -74,8 +74,20 @@ where
         let (tx, mut rx) = futures::channel::mpsc::channel::<Payload<A>>(buffer);
         let tx2 = tx.clone();
 
+        let force_send: ForceChanTx<A> = Arc::new(move |event: Payload<A>| -> Result<()> {
+            let mut tx = tx.clone();
+            // THIS IS A BUG!
+            // Just calling this without checking for readiness will just queue this and ignore the bound
+            tx.start_send(event)?;
+            Ok(())
+        });
+
+        // the waiting sender keeps the forcing one alive, so that handles which only hold
+        // the former (`Caller`) keep the actor fully functional (context, timers, weak upgrades)
+        let keep_force_send = Arc::clone(&force_send);
         let send = Arc::new(
             move |event: Payload<A>| -> Pin<Box<dyn Future<Output = Result<()>> + Send>> {
+                let _ = &keep_force_send;
                 let tx = tx2.clone();
                 Box::pin(async move {
                     let mut tx = tx.clone();
@@ -84,14 +96,6 @@ where
                 })
             },
         );
-
-        let force_send = Arc::new(move |event: Payload<A>| -> Result<()> {
-            let mut tx = tx.clone();
-            // THIS IS A BUG!
-            // Just calling this without checking for readiness will just queue this and ignore the bound
-            tx.start_send(event)?;
-            Ok(())
-        });
 
         let recv: PayloadStream<A> = poll_fn(Box::new(move |ctx| {
             let pinned = pin!(&mut rx);
@@ -105,8 +109,18 @@ where
         let (tx, mut rx) = futures::channel::mpsc::unbounded::<Payload<A>>();
         let tx2 = tx.clone();
 
+        let force_send: ForceChanTx<A> = Arc::new(move |event: Payload<A>| -> Result<()> {
+            log::trace!("sending (unbounded {})", tx.len());
+            let mut tx = tx.clone();
+            tx.start_send(event)?;
+            Ok(())
+        });
+
+        // see `bounded`
+        let keep_force_send = Arc::clone(&force_send);
         let send = Arc::new(
             move |event: Payload<A>| -> Pin<Box<dyn Future<Output = Result<()>> + Send>> {
+                let _ = &keep_force_send;
                 let tx = tx2.clone();
                 Box::pin(async move {
                     let mut tx = tx.clone();
@@ -117,13 +131,6 @@ where
                 })
             },
         );
-
-        let force_send = Arc::new(move |event: Payload<A>| -> Result<()> {
-            log::trace!("sending (unbounded {})", tx.len());
-            let mut tx = tx.clone();
-            tx.start_send(event)?;
-            Ok(())
-        });
         let recv: PayloadStream<A> = poll_fn(Box::new(move |ctx| {
             let pinned = pin!(&mut rx);
             pinned.poll_next(ctx)
